@@ -31,7 +31,9 @@ func init() {
 		rq := c.Deviate(nn + 1)
 		ps := c.Deviate(nn + 1)
 		hm := c.Deviate(1 << uint(nn))
-		extra := c.Deviate(3) // 1: IgnoreUnknown set as well; 2: the parser's flag sits in a group added after the commands and after a parse selecting each of them
+		// 1: IgnoreUnknown set as well; 2: the parser's flag sits in a group added after the commands and after a parse selecting each of them;
+		// 3: an int option of the parser takes its default from an environment variable that holds an unconvertible value (every vector is then faulty)
+		extra := c.Deviate(4)
 		mc := c.Choose(5)     // Execute, Execute+error, CommandHandler, CommandHandler+error, completion mode
 		mode, inject := mc/2, mc%2 == 1
 		key := fmt.Sprintf("s%d/o%d/r%d/p%d/h%d/e%d", si, om, rq, ps, hm, extra)
@@ -40,13 +42,13 @@ func init() {
 			if len(c09Cache) > 200 {
 				c09Cache = map[string]*treeDecl{}
 			}
-			if extra == 1 {
+			if extra == 1 || extra == 3 {
 				ps = 3 // IgnoreUnknown comes with the optional int positional on the third node (or the first, in smaller trees)
 				if nn < 3 {
 					ps = 1
 				}
 			}
-			td = buildTree(par, 0, om, 0, false, true, rq, ps, hm, extra == 2)
+			td = buildTree(par, 0, om, 0, false, true, rq, ps, hm, extra == 2, extra == 3)
 			if td != nil && extra == 1 {
 				td.d.Options = flags.HelpFlag | flags.PassDoubleDash | flags.IgnoreUnknown
 			}
@@ -75,6 +77,9 @@ func init() {
 		cfg := &ref.Config{D: td.d}
 		if mode == 2 {
 			cfg.Env = map[string]string{"GO_FLAGS_COMPLETION": "1"}
+		} else if extra == 3 {
+			cfg.Env = map[string]string{"C09_ENV": "zz"}
+			c.Hit("bad-environment-default")
 		}
 		res := ref.Run(cfg, argv)
 		recordStates(c, key, res, nil)
@@ -192,11 +197,11 @@ func init() {
 		Body:       body,
 		DevBound:   func(th bool) int { return 1 },
 		Rule: "every command tree with <= 3 (quick) / <= 4 (thorough) commands and depth <= 3 with an executable command at every node, HelpFlag set; one deviation from the plain tree at a time: " +
-			"subcommands-optional on any subset of nodes incl. the parser, a required option on any node, required positionals on any node, any subset of commands hidden, IgnoreUnknown set in addition (together with an int positional), the parser's flag in a group added after the commands and after a parse that selected each of them; " +
+			"subcommands-optional on any subset of nodes incl. the parser, a required option on any node, required positionals on any node, any subset of commands hidden, IgnoreUnknown set in addition (together with an int positional), the parser's flag in a group added after the commands and after a parse that selected each of them, an int option of the parser whose environment default does not convert (together with an optional int positional); " +
 			"x {Execute, CommandHandler, completion mode} x {command succeeds, command returns an error} x every sequence of <= 3 tokens (<= 4 on trees of <= 2 commands quick / <= 3 commands thorough) over command names, every node's flag and the fault tokens " +
 			"{unknown option, argument to a flag, --help, -h, unknown word, a word and a number (the required positional is an int on some nodes: conversion faults, also after the -- terminator)}; this contains every single fault at every position of every valid vector of that length; oracle = CLM verdict vs call log",
 		Assumptions:  []string{"when no command is active there is nothing to Execute; a CommandHandler is still called once with a nil command (as its documentation says)"},
-		RequiredHits: []string{"completion-mode", "clean|Execute|calls=1", "clean|CommandHandler|calls=1", "clean|Execute|calls=0", "error-passed-through", "fault|help", "fault|unknown flag", "fault|required", "fault|command required", "fault|unknown command", "fault|no argument for bool"},
+		RequiredHits: []string{"completion-mode", "clean|Execute|calls=1", "clean|CommandHandler|calls=1", "clean|Execute|calls=0", "error-passed-through", "fault|help", "fault|unknown flag", "fault|required", "fault|command required", "fault|unknown command", "fault|no argument for bool", "bad-environment-default"},
 		Bound:        [2]string{"token sequences <= 3, trees <= 3 commands, <= 1 declaration deviation", "token sequences <= 4 (trees <= 3 commands) / <= 3 (4 commands), <= 1 declaration deviation"},
 		BudgetS:      [2]int{170, 1500},
 	})
